@@ -511,3 +511,37 @@ def version_compared_componentwise(chk, ctx):
     chk.floor("C20.R12", len(cmps), 1, "tests of the Redis server version")
     if not n:
         chk.ob("C20.R12", "the Redis server version is not derived by deleting the dots of the version string", True, "")
+
+
+# ---------------------------------------------------------------------------------------------------------------------
+# C17.R9 (D74, open): whoever mints an execution ARN from a name that comes out of a request or a state machine (not from the engine's own uuid)
+# validates the name first, as the REST handlers do with valid_name(): every consumer splits the ARN at its LAST colon.
+def minted_execution_names_are_validated(chk, ctx):
+    n = 0
+    for mname in ("task_dispatcher", "rest_api", "rest_api_asyncio"):
+        m = ctx.mod(mname)
+        for q, f in sorted(m.funcs.items()):
+            for c in _walk_no_nested(f.node):
+                if not (isinstance(c, ast.Call) and last(callname(c) or "") == "create_arn"):
+                    continue
+                kw = {k.arg: k.value for k in c.keywords}
+                if const(kw.get("resource_type")) != "execution" or "resource" not in kw:
+                    continue
+                n += 1
+                # names that make up the resource, and where they come from
+                parts = [x.id for x in ast.walk(kw["resource"]) if isinstance(x, ast.Name)]
+                ext = []
+                for p in parts:
+                    for d in name_defs(f, p):
+                        if isinstance(d, ast.Assign) and isinstance(d.value, ast.Call) and isinstance(d.value.func, ast.Attribute) and d.value.func.attr == "get" \
+                                and norm(d.value.func.value) in ("parameters", "params") and const(d.value.args[0]) in ("Name", "name"):
+                            ext.append(p)
+                if not ext:
+                    continue
+                checked = any(isinstance(x, ast.Call) and last(callname(x) or "") in ("valid_name", "search", "match", "fullmatch") and any(isinstance(y, ast.Name) and y.id in ext for a in x.args for y in ast.walk(a))
+                              for x in _walk_no_nested(f.node))
+                chk.ob("C17.R9", "%s validates the name it mints an execution ARN from" % q, checked, "",
+                       key="%s | the execution name `%s` comes from the request / the state's Parameters and reaches create_arn unvalidated" % (q, ext[0]), where=m.line(c),
+                       message="a name containing ':' yields an ARN that every consumer (record re-creation, EXPRESS details, the back stop, notifications) splits into a different state "
+                               "machine and execution name; the REST API refuses the same name as InvalidName")
+    chk.floor("C17.R9", n, 3, "places that mint an execution ARN")
